@@ -160,7 +160,7 @@ def run_units(unit_names, prop, tier, outdir, only_harness=None):
     sel = []
     for u in units:
         for h in u['harnesses']:
-            if prop in h['props'] and (only_harness is None or h['name'] == only_harness):
+            if prop in h['props'] and (only_harness is None or (h["name"] == only_harness or (only_harness.endswith("*") and h["name"].startswith(only_harness[:-1])))):
                 if h.get('tier') == 'thorough' and tier != 'thorough':
                     continue
                 sel.append(h)
